@@ -84,17 +84,29 @@ Theorem C17_chunk_range_mt_slots : forall max_il min_il,
 Proof. exact chunk_range_mt_tasks_ok. Qed.
 Print Assumptions C17_chunk_range_mt_slots.
 
+(* read_and_decompress_zslice_set_adv (one block read, blockshape0/4 slice assignments per task): r1 and r2 stand for
+   int(4*4*blockshape[1]*rate) and int(shape_pad[1]*4*4*rate); the two equations hold for every well-formed header *)
+Theorem C17_zslice_set_adv_slots : forall bb b0 b1 b2 bs0 r1 r2 zf,
+  (0 <= r1 / 8)%Z -> (0 <= bs0 / 4)%Z -> (0 <= b0)%Z -> (0 < b1)%Z -> bb = ((bs0 / 4) * (r1 / 8))%Z -> (r2 / 8 = b1 * (r1 / 8))%Z ->
+  tasks_okb (Z.to_nat (zslice_set_adv_buflen bb b0 b1)) (adv_tasks bb b0 b1 b2 bs0 r1 r2 zf) = true.
+Proof. exact zslice_set_adv_tasks_ok. Qed.
+Print Assumptions C17_zslice_set_adv_slots.
+
 (* ties to the code, by computation on generated terms *)
 Theorem C17_guard_is_length_check : forall a b, check_range_length_raises a b = negb (a =? b)%Z.
 Proof. exact guard_is_length_check. Qed.
+Print Assumptions C17_guard_is_length_check.
 Theorem C17_backends_checked : forall w, In w backends -> w = true.
 Proof. exact backends_true. Qed.
+Print Assumptions C17_backends_checked.
 Theorem C17_futures_collected : forall c, In c collected_flags -> c = true.
 Proof. exact collected_true. Qed.
+Print Assumptions C17_futures_collected.
 Theorem C17_futures_collected_reader :
   ld_read_and_decompress_xl_set_futures_checked = true /\ ld_read_and_decompress_zslice_set_futures_checked = true /\
   ld_read_and_decompress_zslice_set_adv_futures_checked = true /\ ld_read_and_decompress_chunk_range_futures_checked = true.
 Proof. exact futures_collected_reader. Qed.
+Print Assumptions C17_futures_collected_reader.
 Theorem C17_io_through_choke_point :
   raw_io_outside_choke_point = [] /\ reader_installs_only_choke_points = true /\ preload_through_read_range = true /\
   read_range_sites = [("read.SgzReader.__init__", 2%Z); ("read.SgzReader.get_unstructured_mask", 1%Z);
@@ -122,3 +134,4 @@ Example C17_nonvacuous :
   true_buffer nat file ts buf0 = [14; 15; 16; 17; 10; 11; 12; 13] /\
   delivered nat file (Short 2) 4 4 = false /\ delivered nat (firstn 7 file) Full 4 4 = false /\ delivered nat file Fail 0 4 = false.
 Proof. exact c17_witness. Qed.
+Print Assumptions C17_nonvacuous.
